@@ -40,9 +40,12 @@ def steps_of(lines):
 
 
 def run_model(model_exe, workdir, cases, tag, fuel=20000, timeout=300):
+    """fuel: global step limit of each probe run (models whose run time grows fast with it - MsPq - pass a small one)"""
     cf = os.path.join(workdir, "%s.txt" % tag)
     conc_check.write_cases(cf, cases)
     rc, out = vcheck.sh("%s %d < %s" % (model_exe, fuel, cf), timeout=timeout)
+    if rc == 124:
+        raise vcheck.BuildError("model probe %s did not finish within %d s (window schedule generation)" % (cf, timeout))
     return conc_check.parse_logs(out)
 
 
@@ -59,13 +62,57 @@ def _thread_kinds(log, tid, skip_global):
     return out
 
 
-def setup_prefix(model_exe, workdir, cfg, threads, setup, tag="wsetup"):
+def _thread_op_ends(log, tid, skip_global, ret_prefix="ret_"):
+    """numbers of steps thread `tid` has executed (after the first skip_global global steps) when each of its operations
+    responds (client event `ret_...`); same stopping rule as _thread_kinds"""
+    n_glob = 0
+    mine = 0
+    started = False
+    out = []
+    for l in log["lines"]:
+        t = l.split(" ")
+        if len(t) < 2:
+            continue
+        if t[1] == "ev":
+            if started and int(t[0]) == tid and len(t) >= 3 and t[2].startswith(ret_prefix) and mine > 0:
+                out.append(mine)
+            continue
+        n_glob += 1
+        if n_glob <= skip_global:
+            continue
+        if int(t[0]) == tid:
+            mine += 1
+            started = True
+        elif started:
+            break
+    return out
+
+
+def _actor_points(ak, ends, actor_kinds, actor_stops, actor_extra, max_actor):
+    """positions (numbers of steps) at which the actor is stopped"""
+    pas = []
+    if actor_stops in ("writes", "both"):
+        pas += [i + 1 for i, k in enumerate(ak) if k in actor_kinds]
+        if max_actor is not None:
+            pas = pas[:max_actor]           # an actor spinning on a lock the victim holds writes for ever
+    if actor_stops in ("ops", "both"):
+        pas += [e for e in ends if e not in pas]
+    spinning = len(ak) >= 200               # did not finish within the probe: it waits for the stalled victim
+    if ak and not spinning and len(ak) not in pas:
+        pas.append(len(ak))                 # the actor runs to the end of its program
+    if spinning and actor_extra:
+        base = ends[-1] if ends else 0
+        pas += [base + x for x in actor_extra if base + x < len(ak) and base + x not in pas]
+    return sorted(set(pas))
+
+
+def setup_prefix(model_exe, workdir, cfg, threads, setup, tag="wsetup", fuel=20000):
     """threads[0] is to run `setup` operations first: -> (threads with the set-up prepended to thread 0, the schedule
     prefix [0]*k that runs exactly 'begin' + the set-up operations of thread 0)"""
     if not setup:
         return threads, []
     probe = [list(setup)] + [list(t) for t in threads[1:]]
-    lg = run_model(model_exe, workdir, [{"id": tag, "cfg": cfg, "threads": probe, "sched": [0] * RUN}], tag).get(tag)
+    lg = run_model(model_exe, workdir, [{"id": tag, "cfg": cfg, "threads": probe, "sched": [0] * RUN}], tag, fuel=fuel).get(tag)
     k = 0
     if lg:
         for (t, kind, ok) in steps_of(lg["lines"]):
@@ -78,7 +125,8 @@ def setup_prefix(model_exe, workdir, cfg, threads, setup, tag="wsetup"):
 
 
 def windows(model_exe, workdir, cfg, threads, setup=(), kinds=WRITE_KINDS, max_r=12, slack=8, stall="writes",
-            actor_kinds=None, third=False, rs=None, tag="wp", max_stalls=None, double=False, rs2=None, max_actor=None, rs_d=None, double_stalls=3):
+            actor_kinds=None, third=False, rs=None, tag="wp", max_stalls=None, double=False, rs2=None, max_actor=None, rs_d=None, double_stalls=3,
+            actor_stops="writes", actor_extra=(), ret_prefix="ret_", fuel=20000, finish_rounds=0):
     """-> (threads of the case, list of (name, schedule), info dict).
     threads: the template's operations per thread; setup: operations thread 0 executes first (scheduled to completion
     before anything else).  stall: "writes" (victim stalled right before each of its writes) | "all" (before each of
@@ -88,19 +136,26 @@ def windows(model_exe, workdir, cfg, threads, setup=(), kinds=WRITE_KINDS, max_r
     double: also the "d" schedules with TWO victims v, u stalled before their writes, the actor through one of its
     writes, then r steps of v, then r2 steps of u (r2 in rs2), then the rest: both victims fail and meet on their retry
     paths (helping / elimination / second-level races); r in rs_d (default rs), only the first double_stalls stall
-    points of each victim."""
+    points of each victim.
+    actor_stops: "writes" (the actor is stopped after each of its writes and at its end) | "ops" (after each of its
+    operations) | "both".  actor_extra: when the actor does not finish in the probe (it WAITS for the stalled victim: a
+    lock, a tag), also the run lengths last-operation-end + x for x in actor_extra - on the unchanged code it spins
+    there, a broken implementation that no longer waits uses these steps to go on.
+    finish_rounds: append that many rounds of bursts of varying lengths (see below) to every schedule."""
     actor_kinds = actor_kinds or kinds
     rs = list(range(max_r + 1)) if rs is None else list(rs)
-    threads, pre = setup_prefix(model_exe, workdir, cfg, threads, list(setup), tag + "_s")
+    threads, pre = setup_prefix(model_exe, workdir, cfg, threads, list(setup), tag + "_s", fuel=fuel)
     n = len(threads)
     npre = len(pre)
     # pass 0
     p0 = [{"id": "%s_p0_%d" % (tag, t), "cfg": cfg, "threads": threads, "sched": pre + [t] * RUN} for t in range(n)]
-    l0 = run_model(model_exe, workdir, p0, tag + "_p0")
+    l0 = run_model(model_exe, workdir, p0, tag + "_p0", fuel=fuel)
     solo = []
+    solo_ends = []
     for t in range(n):
         lg = l0.get("%s_p0_%d" % (tag, t))
         solo.append(_thread_kinds(lg, t, npre) if lg else [])
+        solo_ends.append(_thread_op_ends(lg, t, npre, ret_prefix) if lg else [])
     # when thread 0 ran the set-up, its 'begin' is part of the prefix: every position below counts steps after the prefix
     stalls = {}
     for v in range(n):
@@ -120,7 +175,7 @@ def windows(model_exe, workdir, cfg, threads, setup=(), kinds=WRITE_KINDS, max_r
                 if a != v:
                     p1.append({"id": "%s_p1_%d_%d_%d" % (tag, v, pv, a), "cfg": cfg, "threads": threads,
                                "sched": pre + [v] * (pv - 1) + [a] * RUN})
-    l1 = run_model(model_exe, workdir, p1, tag + "_p1") if p1 else {}
+    l1 = run_model(model_exe, workdir, p1, tag + "_p1", fuel=fuel) if p1 else {}
     out = []
     nprobe = len(p0) + len(p1)
     for v in range(n):
@@ -132,11 +187,7 @@ def windows(model_exe, workdir, cfg, threads, setup=(), kinds=WRITE_KINDS, max_r
                 if not lg:
                     continue
                 ak = _thread_kinds(lg, a, npre + pv - 1)
-                pas = [i + 1 for i, k in enumerate(ak) if k in actor_kinds]
-                if max_actor is not None:
-                    pas = pas[:max_actor]           # an actor spinning on a lock the victim holds writes for ever
-                if ak and len(ak) not in pas and len(ak) < 200:
-                    pas.append(len(ak))             # the actor runs to the end of its program
+                pas = _actor_points(ak, _thread_op_ends(lg, a, npre + pv - 1, ret_prefix), actor_kinds, actor_stops, actor_extra, max_actor)
                 others = [t for t in range(n) if t not in (v, a)]
                 tail = [v] * (min(len(solo[v]), 150) + 3 * slack) + [a] * (min(len(ak), 150) + 3 * slack)
                 for pa in pas:
@@ -149,11 +200,10 @@ def windows(model_exe, workdir, cfg, threads, setup=(), kinds=WRITE_KINDS, max_r
                     if third:
                         for c in others:
                             ck = solo[c]
-                            pcs = [i + 1 for i, k in enumerate(ck) if k in actor_kinds]
-                            if max_actor is not None:
-                                pcs = pcs[:max_actor]
-                            if ck and len(ck) not in pcs and len(ck) < 200:
-                                pcs.append(len(ck))
+                            pcs = _actor_points(ck, solo_ends[c], actor_kinds, actor_stops, (), max_actor)
+                            if actor_extra:
+                                # in the context the third thread may have to wait where it did not when run alone
+                                pcs = sorted(set(pcs + [len(ck) + x for x in actor_extra]))
                             rest = [t for t in others if t != c]
                             for pc in pcs:
                                 for r in rs:
@@ -176,7 +226,7 @@ def windows(model_exe, workdir, cfg, threads, setup=(), kinds=WRITE_KINDS, max_r
                             if a not in (v, v2):
                                 p2.append({"id": "%s_p2_%d_%d_%d_%d_%d" % (tag, v, pv, v2, pv2, a), "cfg": cfg, "threads": threads,
                                            "sched": pre + [v] * (pv - 1) + [v2] * (pv2 - 1) + [a] * RUN, "key": (v, pv, v2, pv2, a)})
-        l2 = run_model(model_exe, workdir, p2, tag + "_p2") if p2 else {}
+        l2 = run_model(model_exe, workdir, p2, tag + "_p2", fuel=fuel) if p2 else {}
         nprobe += len(p2)
         for c in p2:
             v, pv, v2, pv2, a = c["key"]
@@ -184,9 +234,7 @@ def windows(model_exe, workdir, cfg, threads, setup=(), kinds=WRITE_KINDS, max_r
             if not lg:
                 continue
             ak = _thread_kinds(lg, a, npre + pv - 1 + pv2 - 1)
-            pas = [i + 1 for i, k in enumerate(ak) if k in actor_kinds]
-            if max_actor is not None:
-                pas = pas[:max_actor]
+            pas = _actor_points(ak, _thread_op_ends(lg, a, npre + pv - 1 + pv2 - 1, ret_prefix), actor_kinds, actor_stops, actor_extra, max_actor)
             rest = [t for t in range(n) if t not in (v, v2, a)]
             tail = [v2] * (min(len(solo[v2]), 150) + 3 * slack) + [v] * (min(len(solo[v]), 150) + 3 * slack) + [a] * (min(len(ak), 150) + 3 * slack)
             for pa in pas:
@@ -197,6 +245,15 @@ def windows(model_exe, workdir, cfg, threads, setup=(), kinds=WRITE_KINDS, max_r
                         for t in rest:
                             sch += [t] * (min(len(solo[t]), 150) + slack)
                         out.append(("d_v%d@%d_u%d@%d_a%d@%d_r%d_%d" % (v, pv, v2, pv2, a, pa, r, r2), sch + tail))
+    if finish_rounds:
+        # lock-based code: once the schedule is exhausted the scheduler goes round-robin, and two threads in lock step can
+        # starve each other for ever (TATAS: the waiter sees the lock free, the holder's loop retakes it before the
+        # waiter's exchange).  Bursts of varying lengths break the symmetry; deterministic.
+        fin = []
+        for k in range(finish_rounds):
+            for t in range(n):
+                fin += [t] * (1 + (5 * k + 3 * t + (k * k) % 7) % 6)
+        out = [(name, sch + fin) for (name, sch) in out]
     info = {"threads": n, "prefix_steps": npre, "solo_steps": [len(x) for x in solo], "stall_points": {str(v): stalls[v] for v in stalls},
             "model_probes": nprobe, "schedules": len(out)}
     return threads, out, info
